@@ -264,8 +264,8 @@ def _gen(prop, base_seed, tier, i):
     return case
 
 
-def _batch(prop, base_seed, tier, start, count, deadline):
-    agg = {"start": start, "runs": 0, "stats": {}, "faults": {}, "distinct": {}, "raw": None, "samples": [], "error": None}
+def _batch(prop, base_seed, tier, start, count, deadline, known):
+    agg = {"start": start, "runs": 0, "stats": {}, "faults": {}, "distinct": {}, "raw": None, "samples": [], "error": None, "known": {}}
     for i in range(start, start + count):
         if time.time() > deadline:
             break
@@ -285,6 +285,13 @@ def _batch(prop, base_seed, tier, start, count, deadline):
         if res.sample is not None and len(agg["samples"]) < 1:
             agg["samples"].append(json.loads(json.dumps(res.sample, default=str)))
         if res.violations:
+            # an open known finding is reported and the search goes on; anything else stops it
+            v = res.violations[0]
+            v["signature"] = prop.signature(case, v)
+            kf = match_known(prop.ID, v, known)
+            if kf is not None:
+                agg["known"][kf["id"]] = agg["known"].get(kf["id"], 0) + 1
+                continue
             agg["raw"] = {"run_index": i, "case": case, "result": res.to_dict()}
             break
     agg["distinct"] = {k: list(v) for k, v in agg["distinct"].items()}
@@ -449,7 +456,7 @@ def drive(prop, tier, base_seed, workers=None):
         while (live or (nxt < total and time.time() < deadline)) and not harness_error:
             while not stop and len(live) < workers and nxt < total and time.time() < deadline:
                 c = min(batch, total - nxt)
-                p, conn = spawn(_batch, (prop, base_seed, tier, nxt, c, deadline))
+                p, conn = spawn(_batch, (prop, base_seed, tier, nxt, c, deadline, known))
                 live[conn] = (p, nxt, time.time())
                 nxt += c
             if not live:
@@ -472,6 +479,9 @@ def drive(prop, tier, base_seed, workers=None):
                         agg["faults"][k] = agg["faults"].get(k, 0) + v
                     for k, v in a["distinct"].items():
                         agg["distinct"].setdefault(k, set()).update(v)
+                    for fid, cnt in a["known"].items():
+                        agg["stats"]["known_finding_hits:" + fid] = agg["stats"].get("known_finding_hits:" + fid, 0) + cnt
+                        agg["known"].append({"known": fid})
                     if len(agg["samples"]) < 3:
                         agg["samples"].extend(a["samples"][: 3 - len(agg["samples"])])
                     if a["error"]:
